@@ -233,7 +233,7 @@ func verifyChain(ca *lib.CA, chain []*x509.Certificate, name string, before, aft
 }
 
 func main() {
-	run := lib.Start("C07", "concurrent CONNECT + TLS handshakes (8 goroutines quick / 64 thorough) against MITM proxies with certificate cache sizes 1, 2, 8, cache TTL and certificate validity down to 2 s; authorities: DNS names in mixed case, IPv4, bracketed IPv6, ports 443/8443/1; SNI same / absent / different; every received chain is verified by an independent x509.Verify for the name that client asked for, with roots = the configured CA, at the handshake's own timestamps; origins with expired / not-yet-valid / wrong-name / untrusted certificates must receive zero requests while the valid origin is served (and all are reached in insecure mode, so the check is not vacuous); hosts excluded by mitm-domains must see the origin's own certificate; race detector on; distinct = (config, host class, SNI mode) signatures")
+	run := lib.Start("C07", "concurrent CONNECT + TLS handshakes (8 goroutines quick / 64 thorough) against MITM proxies with certificate cache sizes 1, 2, 8, cache TTL and certificate validity down to 2 s; authorities: DNS names in mixed case, IPv4, bracketed IPv6, ports 443/8443/1; SNI same / absent / different; a quarter of the CONNECTs carry a Content-Length, the even-sized cache configurations log exchanges in body mode; every received chain is verified by an independent x509.Verify for the name that client asked for, with roots = the configured CA, at the handshake's own timestamps; origins with expired / not-yet-valid / wrong-name / untrusted certificates must receive zero requests while the valid origin is served (and all are reached in insecure mode, so the check is not vacuous); hosts excluded by mitm-domains must see the origin's own certificate; race detector on; distinct = (config, host class, SNI mode) signatures")
 	root := run.RNG()
 	cfgs := []pcfg{
 		{name: "cache1", cacheSize: 1},
